@@ -423,6 +423,11 @@ func (ex *Exec) evalAppend(st *State, call *ast.CallExpr) Val {
 			j := BVar("j", SInt)
 			st.assume(Forall([]*Term{j}, Implies(And(Le(IntLit(0), j), Lt(j, Add(p.len, n))),
 				Eq(Select(outA, j), Ite(Lt(j, p.len), Select(old, Add(p.off, j)), srcElem(Sub(j, p.len), k)))), []*Term{Select(outA, j)}))
+			{
+				// unchanged part, triggered by reads of the old array
+				u := BVar("u", SInt)
+				st.assume(Forall([]*Term{u}, Implies(Or(Lt(u, start), Ge(u, Add(start, n))), Eq(Select(inA, u), Select(old, u))), []*Term{Select(old, u)}))
+			}
 			if srcArr != nil {
 				// backward triggers on the source array
 				m := BVar("m", SInt)
